@@ -55,7 +55,12 @@ func v15ArbitraryState(sc *vScenario) *vState {
 		for _, o := range sc.owners {
 			if verifrt.Bool("pres." + l.tag + "." + o) {
 				st.pres[l.id][o] = true
-				st.val[l.id][o] = l.newVal("val." + l.tag + "." + o)
+				v := l.newVal("val." + l.tag + "." + o)
+				if l.isUint && verifrt.Param("strform", 0) == 1 {
+					// the intended store may hold a number in string form
+					v.strForm = verifrt.Bool("strform." + l.tag + "." + o)
+				}
+				st.val[l.id][o] = v
 			}
 		}
 	}
@@ -268,6 +273,9 @@ func VerifDeviations() {
 	env := vNewEnv()
 	st := v15ArbitraryState(sc)
 	st.install(env)
+	// param "ideal" = 1: the cache answers the all-intents read with the entries of all intents
+	// (the contract runDeviationUpdate is written against); 0: sdcio/cache v0.0.35 as observed
+	env.model.IdealReads = verifrt.Param("ideal", 0) == 1
 	n := verifrt.Param("clients", 1)
 	dm := map[string]sdcpb.DataServer_WatchDeviationsServer{}
 	var streams []*v15Stream
